@@ -109,8 +109,13 @@ class Level(metaclass=abc.ABCMeta):
                 raise ValueError('Parent or key required')
             LOGGER.debug("Determining implicit self key as parent's last listing")
             self._key = self._parent.list().last
-        if self._parent and self._key not in self._parent.list():
-            raise Level.Invalid(f'Invalid level key {self._key}')
+        if self._parent:
+            try:
+                # adopt the key as listed: equal keys may be spelled differently (releases 1.0 and 1.0.0) while
+                # the registry addresses the level by that spelling
+                self._key = next(k for k in self._parent.list() if k == self._key)
+            except StopIteration:
+                raise Level.Invalid(f'Invalid level key {self._key}') from None
         return self._key
 
     @abc.abstractmethod
